@@ -48,8 +48,9 @@ struct ItemSpec {
     loops: Vec<(String, Vec<String>)>,
     befores: Vec<(String, Vec<String>)>,
     afters: Vec<(String, Vec<String>)>,
-    closures: Vec<(usize, Vec<String>)>, // n-th closure: text spliced between `|..|` and body
-    closure_params: Vec<(usize, Vec<String>)>, // n-th closure: explicit parameter types
+    closures: Vec<(String, Vec<String>)>, // closure anchor (ordinal `N` or key `callee#k`): text spliced between `|..|` and body
+    optional_closures: Vec<String>,      // closure anchors whose directives are skipped when the closure is gone
+    closure_params: Vec<(String, Vec<String>)>, // closure anchor: explicit parameter types
     drop_derive: Vec<String>,
     viter_skip: Vec<String>,
     forpat: bool,
@@ -203,10 +204,15 @@ fn find<'a>(file: &'a syn::File, selector: &str) -> Vec<Found<'a>> {
         }
         return out;
     }
+    // `traitfn Type::method` also looks into trait impls of the type
+    let (sel, in_traits) = match sel.strip_prefix("traitfn ") {
+        Some(r) => (r.to_string(), true),
+        None => (sel.clone(), false),
+    };
     if let Some((ty, name)) = sel.split_once("::") {
         for it in &file.items {
             if let syn::Item::Impl(im) = it {
-                if im.trait_.is_some() || type_name(&im.self_ty) != ty {
+                if (im.trait_.is_some() && !in_traits) || type_name(&im.self_ty) != ty {
                     continue;
                 }
                 for ii in &im.items {
@@ -340,13 +346,24 @@ fn parse_template(text: &str) -> Vec<Result<String, ItemSpec>> {
                             spec.afters.push((unquote(arg), Vec::new()));
                             sec = Sec::After(spec.afters.len() - 1);
                         }
+                        "closure?" | "closure-params?" => {
+                            let n: String = arg.to_string();
+                            if !spec.optional_closures.contains(&n) { spec.optional_closures.push(n.clone()); }
+                            if cmd == "closure?" {
+                                spec.closures.push((n, Vec::new()));
+                                sec = Sec::Closure(spec.closures.len() - 1);
+                            } else {
+                                spec.closure_params.push((n, Vec::new()));
+                                sec = Sec::ClosureParams(spec.closure_params.len() - 1);
+                            }
+                        }
                         "closure" => {
-                            let n: usize = arg.parse().unwrap_or_else(|_| die("//@closure <n>"));
+                            let n: String = arg.to_string();
                             spec.closures.push((n, Vec::new()));
                             sec = Sec::Closure(spec.closures.len() - 1);
                         }
                         "closure-params" => {
-                            let n: usize = arg.parse().unwrap_or_else(|_| die("//@closure-params <n>"));
+                            let n: String = arg.to_string();
                             spec.closure_params.push((n, Vec::new()));
                             sec = Sec::ClosureParams(spec.closure_params.len() - 1);
                         }
@@ -541,7 +558,7 @@ fn list_item(args: &Args, file: &str, selector: &str) {
                 println!("stmt {:3}: {}", i, norm(&src[a..b]).chars().take(100).collect::<String>());
             }
             for (i, s) in c.closures.iter().enumerate() {
-                println!("closure {:3}: {}", i, norm(&src[s.0..s.1]).chars().take(100).collect::<String>());
+                println!("closure {:3} [{}]: {}", i, c.closure_nodes[i].key, norm(&src[s.0..s.1]).chars().take(100).collect::<String>());
             }
         }
     }
@@ -602,6 +619,16 @@ fn locate_fragment(c: &rewrite::Collector, kind: &str, anchor: &str, sel: &str) 
                 die(&format!("lost anchor: {} has {} calls of `.{}` (need exactly one with > {} arguments)", sel, hits.len(), m, k));
             }
             hits[0].1[k]
+        }
+        "recv" => {
+            // receiver of the K-th (pre-order) call of `.METHOD(..)`
+            let (m, k) = anchor.split_once(char::is_whitespace).unwrap_or_else(|| die("fragment: recv METHOD K"));
+            let k: usize = k.trim().parse().unwrap_or_else(|_| die("fragment: recv METHOD K"));
+            let hits: Vec<&(String, (usize, usize))> = c.method_recvs.iter().filter(|(n, _)| n == m).collect();
+            if hits.len() <= k {
+                die(&format!("lost anchor: {} has {} calls of `.{}` (need > {})", sel, hits.len(), m, k));
+            }
+            hits[k].1
         }
         "closure" => {
             let n: usize = anchor.parse().unwrap_or_else(|_| die("fragment: closure N"));
@@ -721,8 +748,15 @@ fn emit_item(
             rewrite::item_rewrites(it, src, spec_mode(spec), &mut edits, &mut rewrites);
             if let syn::Item::Fn(f) = it {
                 fn_edits(spec, src, &f.sig, &f.block, &mut edits, &mut rewrites, false);
+                let mut pre = String::new();
+                for a in &spec.attrs {
+                    let _ = writeln!(pre, "#[{}]", a);
+                }
                 if spec.mode == "trusted" {
-                    edits.push(Edit { start: s, end: s, text: "#[verifier::external_body]\n".into(), kind: "R7 stub".into(), prio: -10 });
+                    pre.push_str("#[verifier::external_body]\n");
+                }
+                if !pre.is_empty() {
+                    edits.push(Edit { start: s, end: s, text: pre, kind: "attr".into(), prio: -10 });
                 }
             }
             (s, e, None)
@@ -905,8 +939,18 @@ fn fn_edits(
         }
     }
     // closures: contract splice + explicit parameter typing (R6)
+    let find_closure = |n: &String| -> Option<&rewrite::ClosureInfo> {
+        match n.parse::<usize>() {
+            Ok(i) => c.closure_nodes.get(i),
+            Err(_) => c.closure_nodes.iter().find(|cl| &cl.key == n),
+        }
+    };
     for (n, lines) in &spec.closures {
-        let cl = c.closure_nodes.get(*n).unwrap_or_else(|| {
+        if spec.optional_closures.contains(n) && find_closure(n).is_none() {
+            rewrites.push(format!("optional contract of closure {} skipped: no such closure in the function any more", n));
+            continue;
+        }
+        let cl = find_closure(n).unwrap_or_else(|| {
             die(&format!("lost anchor: closure {} in {} (only {} closures)", n, spec.selector, c.closure_nodes.len()))
         });
         let mut t = String::from(" ");
@@ -925,7 +969,10 @@ fn fn_edits(
         }
     }
     for (n, lines) in &spec.closure_params {
-        let cl = c.closure_nodes.get(*n).unwrap_or_else(|| {
+        if spec.optional_closures.contains(n) && find_closure(n).is_none() {
+            continue;
+        }
+        let cl = find_closure(n).unwrap_or_else(|| {
             die(&format!("lost anchor: closure {} in {} (only {} closures)", n, spec.selector, c.closure_nodes.len()))
         });
         let types: Vec<String> = lines.iter().map(|l| l.trim().to_string()).filter(|l| !l.is_empty()).collect();
